@@ -25,13 +25,23 @@ func nopLogger() log.Logger { return log.NewNopLogger() }
 
 type scenario struct {
 	Names      []string `json:"names"`   // corruptions applied jointly ("none": the control)
-	H          uint64   `json:"h"`       // target height
+	H          uint64   `json:"h"`       // target height (with a power vector: the first candidate)
 	Choices    [3]bool  `json:"choices"` // n1..n3: true = B arrives in time, false = the propose timeout fires first
 	Perm       int      `json:"perm"`    // which real node plays n2 / n3
 	PrevRound1 bool     `json:"prevRound1"`
 	Trie       bool     `json:"trie"`
 	Txs        int      `json:"txs,omitempty"`    // transfers offered for the target block (default 2; several hundred make a multi-part block)
 	Tamper     string   `json:"tamper,omitempty"` // negative control: falsify one observation
+	Powers     []int64  `json:"powers,omitempty"` // voting powers of the validators (default: four of power 1)
+	Served     int      `json:"served,omitempty"` // more than three correct validators: B reaches n1..n<Served> in time
+}
+
+// receives says whether B reaches the k-th correct validator before its propose timeout.
+func (s scenario) receives(k, nCorrect int) bool {
+	if nCorrect > 3 {
+		return k < s.Served
+	}
+	return s.Choices[k]
 }
 
 func (s scenario) String() string {
@@ -47,6 +57,12 @@ func (s scenario) String() string {
 	if s.Txs > 0 {
 		d += fmt.Sprintf("/txs=%d", s.Txs)
 	}
+	if len(s.Powers) > 0 {
+		d += fmt.Sprintf("/powers=%v", s.Powers)
+		if len(s.Powers) > 4 {
+			d += fmt.Sprintf("/served=%d", s.Served)
+		}
+	}
 	return d
 }
 
@@ -54,6 +70,7 @@ type stepRec struct {
 	Op   string             `json:"op"`
 	N    string             `json:"n"`
 	R    int                `json:"r"`
+	V    string             `json:"v,omitempty"`
 	Obs  map[string]nodeObs `json:"obs"`
 	Note string             `json:"note,omitempty"`
 }
@@ -82,13 +99,19 @@ type outcome struct {
 	ValidateErr string    `json:"validateErr"` // clause the real ValidateBlock reports for B
 	ModelErr    string    `json:"modelErr"`    // clause the model says validateBlock reports
 	BadHash     string    `json:"badHash"`
-	PrevRound   int       `json:"prevRound"` // round in which the previous block was decided
-	HonestTxs   int       `json:"honestTxs"` // transactions in the honestly built block
-	Parts       int       `json:"parts"`     // parts the Byzantine block was split into
-	EdgeIdx     []int     `json:"edgeIdx"`   // edges of the AsRequired graph this behaviour followed
-	AsCoded     string    `json:"asCoded"`   // "" (not evaluated) | "conforms" | first mismatch with the AsCoded graph
-	AsCodedN    int       `json:"asCodedN"`  // steps compared with the AsCoded graph
-	Valid       bool      `json:"valid"`     // B is fully valid by construction (class none)
+	PrevRound   int       `json:"prevRound"`      // round in which the previous block was decided
+	HonestTxs   int       `json:"honestTxs"`      // transactions in the honestly built block
+	Parts       int       `json:"parts"`          // parts the Byzantine block was split into
+	EdgeIdx     []int     `json:"edgeIdx"`        // edges of the AsRequired graph this behaviour followed
+	AsCoded     string    `json:"asCoded"`        // "" (not evaluated) | "conforms" | first mismatch with the AsCoded graph
+	AsCodedN    int       `json:"asCodedN"`       // steps compared with the AsCoded graph
+	Valid       bool      `json:"valid"`          // B is fully valid by construction (class none)
+	SetupID     string    `json:"setupID"`        // the validator set as the model names it
+	Total       int64     `json:"total"`          // total voting power
+	Lcp         int64     `json:"lcp"`            // voting power of the precommits B's LastCommit carries
+	TargetH     uint64    `json:"targetH"`        // the height the Byzantine proposer acted at
+	Path        *pathInfo `json:"path,omitempty"` // behaviours of the two-block instances
+	Key         string    `json:"key,omitempty"`  // ... the class their violations are reported under
 }
 
 var errClauses = []struct {
@@ -136,54 +159,75 @@ func (w *world) realValidate() (clause string) {
 }
 
 type graphIndex struct {
-	g       *mbt.Graph
-	classes map[string]bool // block classes the exported model has
+	g      *mbt.Graph
+	setups map[string]int             // validator-set id -> state after Genesis
+	firsts map[string]map[string]bool // validator-set id -> (class, commit power) of the first blocks the model has there
 }
 
 type modelAct struct {
-	Op   string   `json:"op"`
-	Cls  []string `json:"cls"`
-	Verr string   `json:"verr"`
-	N    string   `json:"n"`
-	R    int      `json:"r"`
+	Op    string   `json:"op"`
+	N     string   `json:"n"`
+	R     int      `json:"r"`
+	V     string   `json:"v"`
+	Cls   []string `json:"cls"`
+	Verr  string   `json:"verr"`
+	Lcp   int64    `json:"lcp"`
+	Rel   string   `json:"rel"`
+	Setup string   `json:"setup"`
 }
 type modelState struct {
-	Blk  []string           `json:"blk"`
-	Node map[string]nodeObs `json:"node"`
+	Setup string             `json:"setup"`
+	Node  map[string]nodeObs `json:"node"`
 }
 
-// next finds the out-edge of state cur labelled (op, n, r[, cls]).
-func (gi *graphIndex) next(cur int, op, n string, r int, cls string) (int, *modelAct) {
+func (gi *graphIndex) act(ei int) *modelAct {
+	var a modelAct
+	if json.Unmarshal(gi.g.Edges[ei].Act, &a) != nil {
+		return nil
+	}
+	return &a
+}
+
+func firstKey(cls string, lcp int64) string { return fmt.Sprintf("%s@%d", cls, lcp) }
+
+// find returns the out-edge of state cur whose label satisfies want.
+func (gi *graphIndex) find(cur int, want func(a *modelAct) bool) (int, *modelAct) {
 	for _, ei := range gi.g.Out[cur] {
-		var a modelAct
-		if json.Unmarshal(gi.g.Edges[ei].Act, &a) != nil {
-			continue
+		if a := gi.act(ei); a != nil && want(a) {
+			return ei, a
 		}
-		if a.Op != op || a.N != n || a.R != r {
-			continue
-		}
-		if op == "byzPropose" && className(a.Cls) != cls {
-			continue
-		}
-		return ei, &a
 	}
 	return -1, nil
 }
 
-var nodeNames = []string{"n1", "n2", "n3"}
+// next finds the out-edge of state cur labelled (op, n, r); Genesis is matched by the
+// validator-set id, ByzPropose by the block's class and commit power.
+func (gi *graphIndex) next(cur int, op, n string, r int, setup, cls string, lcp int64) (int, *modelAct) {
+	return gi.find(cur, func(a *modelAct) bool {
+		switch {
+		case a.Op != op:
+			return false
+		case op == "genesis":
+			return a.Setup == setup
+		case op == "byzPropose":
+			return className(a.Cls) == cls && a.Lcp == lcp
+		}
+		return a.N == n && a.R == r
+	})
+}
 
 // walk follows the recorded steps through this graph, comparing the whole node records.
-func (gi *graphIndex) walk(steps []stepRec, cls string) (string, int) {
+func (gi *graphIndex) walk(steps []stepRec, setup, cls string, lcp int64) (string, int) {
 	cur := 0
 	for k, st := range steps {
-		ei, _ := gi.next(cur, st.Op, st.N, st.R, cls)
+		ei, _ := gi.next(cur, st.Op, st.N, st.R, setup, cls, lcp)
 		if ei < 0 {
 			return fmt.Sprintf("step %d %s(%s,%d) is not allowed by the AsCoded model", k+1, st.Op, st.N, st.R), k
 		}
 		var ms modelState
 		json.Unmarshal(gi.g.Edges[ei].ToSt, &ms)
 		cur = gi.g.Edges[ei].To
-		for _, nn := range nodeNames {
+		for _, nn := range sortedNames(st.Obs) {
 			m, o := ms.Node[nn], st.Obs[nn]
 			d := diffProp(m, o)
 			if d == "" {
@@ -200,10 +244,11 @@ func (gi *graphIndex) walk(steps []stepRec, cls string) (string, int) {
 	return "conforms", len(steps)
 }
 
-// modelClass maps the declared clause vector to a class the exported model has: the
-// model enumerates classes of up to three clauses; a larger vector is represented by its
-// first three clauses (under the required guard every non-empty class behaves alike).
-func (gi *graphIndex) modelClass(flags []string) string {
+// modelClass maps the declared clause vector to a class the exported model has for this
+// validator set and commit power: the model enumerates classes of up to three clauses; a
+// larger vector is represented by its first three clauses (under the required guard
+// every non-empty class behaves alike).
+func (gi *graphIndex) modelClass(setup string, flags []string, lcp int64) string {
 	// keep the clauses that decide the behaviour under either guard: app, ev, then validateBlock's order
 	prio := map[string]int{"app": 0, "ev": 1}
 	for i, c := range validateOrder {
@@ -212,7 +257,7 @@ func (gi *graphIndex) modelClass(flags []string) string {
 	f := append([]string{}, flags...)
 	sort.Slice(f, func(i, j int) bool { return prio[f[i]] < prio[f[j]] })
 	for n := len(f); n > 0; n-- {
-		if gi.classes[className(f[:n])] {
+		if gi.firsts[setup][firstKey(className(f[:n]), lcp)] {
 			return className(f[:n])
 		}
 	}
@@ -220,6 +265,15 @@ func (gi *graphIndex) modelClass(flags []string) string {
 }
 
 const maxRound = 1
+
+func sortedNames(m map[string]nodeObs) []string {
+	var out []string
+	for k := range m {
+		out = append(out, k)
+	}
+	sort.Strings(out)
+	return out
+}
 
 // play executes one behaviour.
 func play(sc scenario, gi, coded *graphIndex, kw *killWatch, dir string) (out outcome) {
@@ -229,19 +283,18 @@ func play(sc scenario, gi, coded *graphIndex, kw *killWatch, dir string) (out ou
 			out.Infra = fmt.Sprintf("harness panic: %v", r)
 		}
 	}()
-	flags, apply, ok := compose(sc.Names, sc.H)
+	flags, apply, lcpOf, ok := compose(sc.Names, sc.H)
 	if !ok {
 		out.Skipped = "not applicable at this height"
 		return
 	}
-	out.Flags, out.Class, out.Valid = flags, className(flags), len(flags) == 0
 	probe := false
 	for _, n := range sc.Names {
 		if c := byName(n); c != nil && c.Probe {
 			probe = true
 		}
 	}
-	w, err := newWorld(dir, sc.Trie, kw)
+	w, err := newWorld(dir, sc.Trie, kw, sc.Powers)
 	if err != nil {
 		out.Infra = err.Error()
 		return
@@ -257,16 +310,24 @@ func play(sc scenario, gi, coded *graphIndex, kw *killWatch, dir string) (out ou
 		out.Infra = fmt.Sprintf("%d kill requests while the correct cluster ran to height %d", n, sc.H-1)
 		return
 	}
-	if err := w.takeOver(sc.H, []int{sc.Perm}, sc.Txs); err != nil {
+	var eligible map[string]bool
+	if len(sc.Powers) > 0 && gi != nil {
+		eligible = map[string]bool{}
+		for id := range gi.setups {
+			eligible[id] = true
+		}
+	}
+	if err := w.takeOver(sc.H, []int{sc.Perm}, sc.Txs, maxRound, false, eligible); err != nil {
 		out.Infra = err.Error()
 		return
 	}
+	out.SetupID, out.Total, out.TargetH = w.setupID, w.total, w.H
 	blk, err := w.decodeHonest()
 	if err != nil {
 		out.Infra = "honest block does not decode: " + err.Error()
 		return
 	}
-	if sc.H > 1 {
+	if w.H > 1 {
 		out.PrevRound = blk.LastCommit.Round()
 		if sc.PrevRound1 && out.PrevRound != 1 {
 			out.Infra = fmt.Sprintf("the previous block was meant to be decided in round 1 but was decided in round %d", out.PrevRound)
@@ -282,6 +343,28 @@ func play(sc scenario, gi, coded *graphIndex, kw *killWatch, dir string) (out ou
 		out.Skipped = err.Error()
 		return
 	}
+	// the previous commit's power: the whole set unless a corruption placed it on the boundary;
+	// "more than two thirds" is decided here by exact arithmetic, as in the model
+	lcp := w.total
+	if lcpOf != nil {
+		lcp = lcpOf(w)
+		if 3*lcp <= 2*w.total {
+			flags = append(flags, "lastCommit")
+			sort.Strings(flags)
+		}
+	}
+	declared := flags
+	if lcpOf != nil {
+		declared = nil
+		for _, f := range flags {
+			if f != "lastCommit" {
+				declared = append(declared, f)
+			}
+		}
+	}
+	out.Lcp = lcp
+	out.Flags, out.Class, out.Valid = flags, className(flags), len(flags) == 0
+	w.bz["B"].flags = flags
 	out.BadHash = fmt.Sprintf("%x", w.badID.Hash[:6])
 	out.Parts = w.badParts.Total()
 	out.ValidateErr = w.realValidate()
@@ -292,12 +375,13 @@ func play(sc scenario, gi, coded *graphIndex, kw *killWatch, dir string) (out ou
 	out.Conforms = following
 	mcls := ""
 	if gi != nil {
-		mcls = gi.modelClass(flags)
+		mcls = gi.modelClass(w.setupID, declared, lcp)
 	}
+	names := w.names
 	step := func(op string, k int, r int, f func()) bool {
 		name := "-"
 		if k >= 0 {
-			name = nodeNames[k]
+			name = names[k]
 		}
 		if f != nil {
 			f()
@@ -308,7 +392,7 @@ func play(sc scenario, gi, coded *graphIndex, kw *killWatch, dir string) (out ou
 		}
 		out.NSteps++
 		rec := stepRec{Op: op, N: name, R: r, Obs: map[string]nodeObs{}}
-		for j, nn := range nodeNames {
+		for j, nn := range names {
 			rec.Obs[nn] = w.observe(w.honest[j], maxRound)
 		}
 		if sc.Tamper == "vote" && op == "recvByz" {
@@ -323,20 +407,23 @@ func play(sc scenario, gi, coded *graphIndex, kw *killWatch, dir string) (out ou
 			rec.Obs[name] = o
 		}
 		if following {
-			ei, act := gi.next(cur, op, name, r, mcls)
+			ei, act := gi.next(cur, op, name, r, w.setupID, mcls, lcp)
 			if ei < 0 {
 				following, out.Conforms = false, false
 				out.Divergence = fmt.Sprintf("step %d: the real nodes take step %s(%s,%d) which the model does not allow here", out.NSteps, op, name, r)
+				if op == "genesis" {
+					out.Divergence = fmt.Sprintf("the model has no validator set %q", w.setupID)
+				}
 				rec.Note = out.Divergence
 			} else {
-				if op == "byzPropose" && className(act.Cls) == className(flags) {
+				if op == "byzPropose" && className(act.Cls) == className(declared) {
 					out.ModelErr = act.Verr
 				}
 				var ms modelState
 				json.Unmarshal(gi.g.Edges[ei].ToSt, &ms)
 				cur = gi.g.Edges[ei].To
 				out.EdgeIdx = append(out.EdgeIdx, ei)
-				for _, nn := range nodeNames {
+				for _, nn := range names {
 					m, o := ms.Node[nn], rec.Obs[nn]
 					if d := diffProp(m, o); d != "" {
 						following, out.Conforms = false, false
@@ -354,13 +441,14 @@ func play(sc scenario, gi, coded *graphIndex, kw *killWatch, dir string) (out ou
 		return true
 	}
 	obs := func(k int) nodeObs { return w.observe(w.honest[k], maxRound) }
+	nc := len(w.honest)
 
-	if !step("byzPropose", -1, 0, nil) {
+	if !step("genesis", -1, 0, nil) || !step("byzPropose", -1, 0, nil) {
 		return
 	}
-	for k := 0; k < 3; k++ {
+	for k := 0; k < nc; k++ {
 		i := w.honest[k]
-		if sc.Choices[k] {
+		if sc.receives(k, nc) {
 			if !step("recvByz", k, 0, func() { w.recvByz(i) }) {
 				return
 			}
@@ -371,17 +459,21 @@ func play(sc scenario, gi, coded *graphIndex, kw *killWatch, dir string) (out ou
 	active := func(o nodeObs) bool { return o.Step != "done" && o.Step != "failed" && !o.Killed }
 	for r := 0; r <= maxRound; r++ {
 		if r > 0 {
-			for k := 0; k < 3; k++ {
+			for k := 0; k < nc; k++ {
 				i := w.honest[k]
 				if o := obs(k); active(o) && o.Round == r && o.Step == "propose" {
 					rr := r
-					if !step("recvHonest", k, r, func() { w.recvHonest(i, rr) }) {
+					op := "recvHonest"
+					if i == w.props[r] {
+						op = "ownProposal"
+					}
+					if !step(op, k, r, func() { w.recvHonest(i, rr) }) {
 						return
 					}
 				}
 			}
 		}
-		for k := 0; k < 3; k++ {
+		for k := 0; k < nc; k++ {
 			i := w.honest[k]
 			if o := obs(k); active(o) && o.Round == r && o.Step == "prevote" {
 				rr := r
@@ -390,7 +482,7 @@ func play(sc scenario, gi, coded *graphIndex, kw *killWatch, dir string) (out ou
 				}
 			}
 		}
-		for k := 0; k < 3; k++ {
+		for k := 0; k < nc; k++ {
 			i := w.honest[k]
 			if o := obs(k); active(o) && o.Round == r && o.Step == "precommit" {
 				rr := r
@@ -399,7 +491,7 @@ func play(sc scenario, gi, coded *graphIndex, kw *killWatch, dir string) (out ou
 				}
 			}
 		}
-		for k := 0; k < 3; k++ {
+		for k := 0; k < nc; k++ {
 			i := w.honest[k]
 			if o := obs(k); active(o) && o.Step == "commit" && o.Stored == "none" && o.PB == "none" {
 				if !step("fetchBlock", k, o.Round, func() { w.fetchBlock(i) }) {
@@ -408,7 +500,7 @@ func play(sc scenario, gi, coded *graphIndex, kw *killWatch, dir string) (out ou
 			}
 		}
 		busy := false
-		for k := 0; k < 3; k++ {
+		for k := 0; k < nc; k++ {
 			if active(obs(k)) {
 				busy = true
 			}
@@ -420,10 +512,10 @@ func play(sc scenario, gi, coded *graphIndex, kw *killWatch, dir string) (out ou
 
 	// ---- a killed node is started again (twice): does the stored block apply now? -------
 	restartNote := map[string][]string{}
-	for k, nn := range nodeNames {
+	for k, nn := range names {
 		i := w.honest[k]
 		for try := 0; try < 2 && obs(k).Killed && !obs(k).Applied; try++ {
-			kk, name := k, nn
+			name := nn
 			if !step("restart", k, obs(k).Round, func() {
 				w.restarts[i]++
 				applied, err := w.restart(i)
@@ -436,39 +528,61 @@ func play(sc scenario, gi, coded *graphIndex, kw *killWatch, dir string) (out ou
 				default:
 					restartNote[name] = append(restartNote[name], name+": restart leaves the status behind")
 				}
-				_ = kk
 			}) {
 				return
 			}
 		}
 	}
-	// ---- the tree as it is: does the behaviour follow the AsCoded graph? (pi_shape) -------
+	// ---- the tree as it was: does the behaviour follow the AsCoded graph? (pi_shape) -------
 	if !out.Conforms && coded != nil && !probe {
-		out.AsCoded, out.AsCodedN = coded.walk(out.Steps, coded.modelClass(flags))
+		if _, known := coded.setups[w.setupID]; known {
+			out.AsCoded, out.AsCodedN = coded.walk(out.Steps, w.setupID, coded.modelClass(w.setupID, declared, lcp), lcp)
+		}
 	}
 
 	// ---- the property, read off the real nodes ----------------------------------------
+	w.verdict(&out, names, restartNote)
+	if len(out.Steps) > 14 {
+		out.Steps = append(out.Steps[:10:10], out.Steps[len(out.Steps)-4:]...)
+	}
+	return
+}
+
+// verdict reads the property off the real nodes: votes of correct validators for a
+// Byzantine block that is not fully valid, such a block persisted, kill requests,
+// failures, and whether every correct node ended the height with a block applied.
+func (w *world) verdict(out *outcome, names []string, restartNote map[string][]string) {
 	out.Deliveries = w.steps
 	out.AllApplied, out.GoodStored = true, true
-	for k, nn := range nodeNames {
+	invalid := map[string]*byzBlock{}
+	for name, bb := range w.bz {
+		if len(bb.flags) > 0 {
+			invalid[name] = bb
+		}
+	}
+	for k, nn := range names {
 		i := w.honest[k]
-		o := obs(k)
-		if !out.Valid {
-			for r, byType := range w.votes[i] {
-				for typ, v := range byType {
-					if v.BlockID.Equals(w.badID) {
+		o := w.observe(i, 0)
+		for r, byType := range w.votes[i] {
+			for typ, v := range byType {
+				for name, bb := range invalid {
+					if v.BlockID.Equals(bb.id) {
 						t := "prevote"
 						if typ == types.VoteTypePrecommit {
 							t = "precommit"
 						}
-						out.VotesForBad = append(out.VotesForBad, fmt.Sprintf("%s:%s:r%d", nn, t, r))
+						tag := ""
+						if name != "B" {
+							tag = ":" + name
+						}
+						out.VotesForBad = append(out.VotesForBad, fmt.Sprintf("%s:%s:r%d%s", nn, t, r, tag))
 					}
 				}
 			}
-			if o.Stored == "B" {
-				out.Persisted = append(out.Persisted, nn)
-				out.GoodStored = false
-			}
+		}
+		if _, bad := invalid[o.Stored]; bad {
+			out.Persisted = append(out.Persisted, nn)
+			out.GoodStored = false
 		}
 		if o.Killed {
 			out.Killed = append(out.Killed, nn)
@@ -482,10 +596,6 @@ func play(sc scenario, gi, coded *graphIndex, kw *killWatch, dir string) (out ou
 		}
 	}
 	sort.Strings(out.VotesForBad)
-	if len(out.Steps) > 14 {
-		out.Steps = append(out.Steps[:10:10], out.Steps[len(out.Steps)-4:]...)
-	}
-	return
 }
 
 func firstLine(s string) string {
@@ -501,7 +611,7 @@ func firstLine(s string) string {
 // diffProp compares what the property statement names: the node's votes, what it
 // persisted, whether the block was applied, whether it asked to be killed or failed.
 func diffProp(m, o nodeObs) string {
-	for r := 0; r <= maxRound; r++ {
+	for r := 0; r < len(m.PV); r++ {
 		k := fmt.Sprint(r)
 		if m.PV[k] != o.PV[k] {
 			return fmt.Sprintf("prevote of round %d: model %s, node %s", r, m.PV[k], o.PV[k])
@@ -541,6 +651,9 @@ func diffShape(m, o nodeObs) string {
 	}
 	if m.LB != o.LB {
 		return fmt.Sprintf("locked block: model %s, node %s", m.LB, o.LB)
+	}
+	if m.VB != o.VB {
+		return fmt.Sprintf("valid block: model %s, node %s", m.VB, o.VB)
 	}
 	return ""
 }
